@@ -7,10 +7,10 @@ import common
 from common import coq_list
 
 # objects: names -> numbers used by the model
-NAMES = {'a': 1, 'b': 2, 'p': 3, 'u': 4, 'k': 5, 'sol': 6, 'sf': 7, 'sc': 8, 'a2': 1}     # a2: a second, different object that is also named 'a'
+NAMES = {'a': 1, 'b': 2, 'p': 3, 'u': 4, 'k': 5, 'sol': 6, 'sf': 7, 'sc': 8, 'a2': 1, 'p:s': 3}     # a2: a second, different object that is also named 'a'; p:s: a row of plate p
 REAL = {'a2': 'a'}
 STAGES = {'all': 0, 's1': 1, 's2': 2}
-RULE = ('complete enumeration: every call of the 32-call alphabet from every distinct lifecycle state reachable in <= N calls '
+RULE = ('complete enumeration: every call of the 36-call alphabet from every distinct lifecycle state reachable in <= N calls '
         '(N = 4 quick, 5 thorough), one representative path per state; non-trivial = every (state, call) pair; '
         'distinct by (state key, call)')
 
@@ -20,6 +20,7 @@ ALPHABET = [
     ('create_solution', 'sol', None), ('create_solution', 'sc', 'a'), ('create_solution', 'sc', 'u'),
     ('create_solution_from', 'a', 'sf'), ('create_solution_from', 'u', 'sf'),
     ('transfer', 'a', 'b'), ('transfer', 'a', 'p'), ('transfer', 'u', 'a'), ('transfer', 'a', 'u'),
+    ('transfer', 'a', 'p:s'), ('remove', 'p:s'), ('fill_to', 'p'), ('fill_to', 'p:s'),
     ('remove', 'b'), ('remove', 'u'), ('dilute', 'a'), ('dilute', 'u'), ('dilute_rename', 'a'), ('fill_to', 'b'), ('fill_to', 'u'),
     ('start_stage', 's1'), ('start_stage', 's2'), ('start_stage', 'all'),
     ('end_stage', 's1'), ('end_stage', 's2'), ('end_stage', 'all'),
@@ -44,6 +45,8 @@ class World:
         self.baked = None
 
     def obj(self, n):
+        if ':' in n:      # a slice of a plate: declared iff its plate is
+            return self.obj(n.split(':')[0])[1, :]
         return self.created.get(n) or self.objs[n]
 
     def call(self, c):
@@ -72,7 +75,7 @@ class World:
         elif k == 'dilute_rename':
             r.dilute(self.obj(c[1]), self.salt, '0.5 M', self.water, new_name='renamed')
         elif k == 'fill_to':
-            r.fill_to(self.obj(c[1]), self.water, '2 mL')
+            r.fill_to(self.obj(c[1]), self.water, '0.5 mL' if c[1].startswith('p') else '2 mL')     # the wells of p hold 1 mL
         elif k == 'start_stage':
             r.start_stage(c[1])
         elif k == 'end_stage':
@@ -170,7 +173,7 @@ def oracle(path, c, out, before, after, baked_keys):
     """the discipline of the property on one (state, call); before/after = observable lifecycle states"""
     fails = []
     locked, cur, nsteps, declared, stages = before
-    names = {v: k for k, v in NAMES.items() if k not in REAL}      # objects are identified by name
+    names = {v: k for k, v in NAMES.items() if k not in REAL and ':' not in k}      # objects are identified by name
     names[99] = 'renamed'
     decl = {names[x] for x in declared}
     k = c[0]
@@ -182,6 +185,7 @@ def oracle(path, c, out, before, after, baked_keys):
         return fails
     operands = {'transfer': c[1:3], 'remove': c[1:2], 'dilute': c[1:2], 'dilute_rename': c[1:2], 'fill_to': c[1:2],
                 'create_solution_from': c[1:2], 'create_solution': (c[2],) if k == 'create_solution' and c[2] else ()}.get(k, ())
+    operands = tuple(o.split(':')[0] for o in operands)      # a slice stands for its plate
     if any(o not in decl for o in operands):
         if out[0] == 'ok':
             fails.append(f"{c} uses an object that was never declared but was accepted")
@@ -219,7 +223,7 @@ def oracle(path, c, out, before, after, baked_keys):
 
 
 def run(chk, gate, status):
-    depth = 3 if chk.tier == 'quick' else 4     # depth 5 with the 32-call alphabet is millions of (state, call) pairs
+    depth = 3 if chk.tier == 'quick' else 4     # depth 5 with the 36-call alphabet is millions of (state, call) pairs
     cases, nstates = explore(depth)
     # unused-object clause: needs the set of used names, which bake computes; checked through the model and directly below
     terms = ["showCalls init " + coq_list(["(" + coq_call(x) + ")" for x in path + (c,)]) for (path, c, out, st, bk) in cases]
